@@ -49,6 +49,10 @@ type Ctx struct {
 	start  time.Time
 	Config []string
 	VerifD string
+	syntax []synRec
+	// Mutation is filled by the thorough tier (mutation-kill validation of the rules) and copied into the evidence.
+	Mutation    map[string]interface{}
+	vacuityDone bool
 }
 
 func NewCtx(prop, tier, verifDir string) *Ctx {
@@ -65,7 +69,53 @@ func (c *Ctx) cfgName() string {
 // Touch records that a function was analysed.
 func (c *Ctx) Touch(fn *ssa.Function) {
 	if fn != nil {
-		c.Funcs[c.cfgName()+":"+FuncName(fn)] = true
+		k := c.cfgName() + ":" + FuncName(fn)
+		if c.Funcs[k] {
+			return
+		}
+		c.Funcs[k] = true
+		top := fn
+		for top.Parent() != nil {
+			top = top.Parent()
+		}
+		if n := top.Syntax(); n != nil && c.P != nil && c.P.Fset != nil {
+			a, b := c.P.Fset.Position(n.Pos()), c.P.Fset.Position(n.End())
+			c.syntax = append(c.syntax, synRec{cfg: c.cfgName(), file: a.Filename, start: a.Offset, end: b.Offset, node: n})
+		}
+	}
+}
+
+// Unresolved returns the obligations that are not discharged (violations, undecided, failed
+// non-vacuity), as "config|key" strings. It has no side effects besides adding the non-vacuity
+// obligations once.
+func (c *Ctx) Unresolved() map[string]bool {
+	c.nonVacuity()
+	out := map[string]bool{}
+	for _, o := range c.Obls {
+		if o.Status != "discharged" {
+			out[o.Config+"|"+o.Key] = true
+		}
+	}
+	return out
+}
+
+func (c *Ctx) nonVacuity() {
+	if c.vacuityDone {
+		return
+	}
+	c.vacuityDone = true
+	for k, n := range c.Min {
+		parts := strings.SplitN(k, "|", 2)
+		got := 0
+		for _, o := range c.Obls {
+			if o.Config == parts[0] && o.Rule == parts[1] {
+				got++
+			}
+		}
+		if got < n {
+			c.Obls = append(c.Obls, &Obligation{Rule: "NONVACUITY", Key: "NONVACUITY " + parts[1], Config: parts[0], Status: "undecided",
+				Detail: fmt.Sprintf("rule %s matched %d instance(s), expected at least %d (confirmed by hand on the pinned tree): sites were removed or the matcher no longer recognises them", parts[1], got, n)})
+		}
 	}
 }
 
@@ -112,7 +162,9 @@ func (c *Ctx) Undecided(rule, key string, pos token.Pos, detail string) {
 // Expect sets the minimum number of instances a rule must have matched.
 func (c *Ctx) Expect(rule string, n int) { c.Min[c.cfgName()+"|"+rule] = n }
 
-func (c *Ctx) Note(format string, a ...interface{}) { c.Notes = append(c.Notes, fmt.Sprintf(format, a...)) }
+func (c *Ctx) Note(format string, a ...interface{}) {
+	c.Notes = append(c.Notes, fmt.Sprintf(format, a...))
+}
 
 // ------------------------------------------------------------------ path rules on Ctx
 
@@ -231,20 +283,7 @@ func loadKnown(dir string) ([]KnownFinding, error) {
 // Finish applies non-vacuity minima and known findings, writes evidence and the
 // replay file, prints the verdict lines and returns the exit code.
 func (c *Ctx) Finish(explanation string, assumptions []string, trusted []string) int {
-	// non-vacuity
-	for k, n := range c.Min {
-		parts := strings.SplitN(k, "|", 2)
-		got := 0
-		for _, o := range c.Obls {
-			if o.Config == parts[0] && o.Rule == parts[1] {
-				got++
-			}
-		}
-		if got < n {
-			c.Obls = append(c.Obls, &Obligation{Rule: "NONVACUITY", Key: "NONVACUITY " + parts[1], Config: parts[0], Status: "undecided",
-				Detail: fmt.Sprintf("rule %s matched %d instance(s), expected at least %d (confirmed by hand on the pinned tree): sites were removed or the matcher no longer recognises them", parts[1], got, n)})
-		}
-	}
+	c.nonVacuity()
 	known, err := loadKnown(c.VerifD)
 	if err != nil {
 		fmt.Printf("ERROR reading known_findings.json: %v\n", err)
@@ -316,6 +355,11 @@ func (c *Ctx) Finish(explanation string, assumptions []string, trusted []string)
 		"checker_cmd":         "./check " + c.Prop,
 		"trusted_base":        trusted,
 		"notes":               c.Notes,
+	}
+	if c.Mutation != nil {
+		for k, v := range c.Mutation {
+			cov[k] = v
+		}
 	}
 	ev := evidence{PropertyID: c.Prop, Tier: c.Tier, Seed: 0, Level: "other", Coverage: cov, Assume: assumptions,
 		Wall: time.Since(c.start).Seconds(), Violations: nViol}
